@@ -76,7 +76,9 @@ def mk(alg, keys, values):
 
 
 def mk_raw(alg, keys, values):
-    return MultiVector.fromkeysvalues(alg, tuple(keys), list(values))
+    """fromkeysvalues without copying/converting: an ndarray stays one ndarray (ndarray-backed multivector)."""
+    import numpy as np
+    return MultiVector.fromkeysvalues(alg, tuple(keys), values if isinstance(values, np.ndarray) else list(values))
 
 
 def to_dict(x, alg=None, what="result", op="?"):
